@@ -104,7 +104,19 @@ async fn run_hist(h: &Hist) -> HistOut {
     let log = cluster.log().clone();
     let mut out = HistOut { log: log.clone(), build_error: None, use_results: vec![] };
     let per_shard = h.per_shard;
-    let session = match connect(&cluster, |b| b.pool_size(PoolSize::PerShard(NonZeroUsize::new(per_shard).unwrap()))).await {
+    // half of the histories start with a keyspace given to the SessionBuilder: it counts as a
+    // use_keyspace call that has returned once the session is built
+    let builder_ks = h.seed % 2 == 0;
+    let build_op = next_op();
+    if builder_ks {
+        call(&log, build_op, "use_keyspace", "ks2");
+    }
+    let session = match connect(&cluster, |b| {
+        let b = b.pool_size(PoolSize::PerShard(NonZeroUsize::new(per_shard).unwrap()));
+        if builder_ks { b.use_keyspace("ks2", false) } else { b }
+    })
+    .await
+    {
         Ok(s) => Arc::new(s),
         Err(e) => {
             out.build_error = Some(e);
@@ -112,6 +124,9 @@ async fn run_hist(h: &Hist) -> HistOut {
             return out;
         }
     };
+    if builder_ks {
+        ret(&log, build_op, true, "session built with keyspace");
+    }
     let stop = Arc::new(AtomicBool::new(false));
     let mut workers = Vec::new();
     for _ in 0..h.workers {
@@ -257,6 +272,9 @@ fn judge(o: &mut Outcome, h: &Hist, r: &HistOut) {
     if uses.iter().any(|u| !u.3) {
         o.class("use:failed-on-some-connection");
     }
+    if h.seed % 2 == 0 {
+        o.class("keyspace-given-to-session-builder");
+    }
     for v in r.log.violations() {
         o.violation("c20:protocol-violation-seen-by-node", v, replay.clone());
     }
@@ -271,7 +289,7 @@ fn judge(o: &mut Outcome, h: &Hist, r: &HistOut) {
 
 fn gen_hist(rng: &mut Rng, seed: u64) -> Hist {
     let names = ["ks1", "ks2", "ks"];
-    let mut steps = vec![Step::Use(names[rng.below(3) as usize], false), Step::Pause(5)];
+    let mut steps = if seed % 2 == 0 { vec![Step::Pause(20), Step::Kill(rng.below(2) as usize), Step::Pause(40)] } else { vec![Step::Use(names[rng.below(3) as usize], false), Step::Pause(5)] };
     let n = rng.usize(3, 9);
     for _ in 0..n {
         steps.push(match rng.below(12) {
@@ -283,6 +301,13 @@ fn gen_hist(rng: &mut Rng, seed: u64) -> Hist {
             9 => Step::UseFailing(names[rng.below(3) as usize]),
             _ => Step::Pause(5 + rng.below(60)),
         });
+        // a failed use_keyspace is often retried with the very same name
+        if let Some(Step::UseFailing(n)) = steps.last().cloned() {
+            if rng.chance(2, 3) {
+                steps.push(Step::Pause(5 + rng.below(20)));
+                steps.push(Step::Use(n, false));
+            }
+        }
         if rng.bool() {
             steps.push(Step::Pause(10 + rng.below(80)));
         }
@@ -434,7 +459,7 @@ pub fn run(ctx: &Ctx) -> Outcome {
         }
     }
     rt.block_on(validation(&mut out, ctx));
-    for c in ["step:Use", "step:Kill", "step:Restart", "step:AddNode", "step:UseFailing", "requests-on-connections-opened-after-use", "use:failed-on-some-connection", "name:valid", "name:invalid", "validation-part"] {
+    for c in ["keyspace-given-to-session-builder", "step:Use", "step:Kill", "step:Restart", "step:AddNode", "step:UseFailing", "requests-on-connections-opened-after-use", "use:failed-on-some-connection", "name:valid", "name:invalid", "validation-part"] {
         out.require_class(c);
     }
     out
